@@ -836,4 +836,41 @@ theorem force_succ (n : Nat) (ih : AllSpec n) (id : Nat) (s s' : St) (v : Val) (
           obtain ⟨hk, rfl⟩ := finish s4 s' w hw4 hv4 hfin
           exact ⟨((show Kept s s1 from ⟨hw1, he1, ⟨by rw [g1], g2, g3, g4, g5, g6⟩⟩).trans hk14).trans hk, kept_vok_mono hk hv4⟩
 
+/-! ## The induction on the fuel -/
+
+theorem allSpec_zero : AllSpec 0 where
+  exec := fun b s s' top rest i _ _ _ h => by simp only [VM.exec, run_throw] at h; cases h
+  resolved := fun b s s' top rest f c0 args _ _ _ _ _ h => by simp only [VM.callResolved, run_throw] at h; cases h
+  loop := fun b st s s' _ _ _ h => by rw [runLoop_zero] at h; cases h
+  run := fun b s s' top v _ _ _ h => by simp only [VM.run, run_throw] at h; cases h
+  nested := fun f st s s' v _ _ _ _ _ h => by simp only [VM.nested, run_throw] at h; cases h
+  eval := fun e s s' v _ _ h => by simp only [VM.evalCallExpr, run_throw] at h; cases h
+  prep := fun f i args s s' _ _ h => by simp only [VM.prepareArgs, run_throw] at h; cases h
+  user := fun name k s s' tail _ _ h => by simp only [VM.callUser, run_throw] at h; cases h
+  builtin := fun name args s s' v _ _ _ h => by simp only [VM.builtin, run_throw] at h; cases h
+  apply := fun f args s s' v _ _ _ _ h => by simp only [VM.applyFn, run_throw] at h; cases h
+  mapArr := fun f r i k s s' vs _ _ _ h => by simp only [VM.mapArr, run_throw] at h; cases h
+  mapList := fun f l s s' v _ _ _ _ h => by simp only [VM.mapList, run_throw] at h; cases h
+  force := fun id s s' v _ h => by simp only [VM.forceLazy, run_throw] at h; cases h
+
+/-- **The calling contract**: the specifications of all functions of the VM's mutual block, at
+every fuel. -/
+theorem allSpec (hP : PrimOK) (hQ : QuoteOK) : ∀ n, AllSpec n
+  | 0 => allSpec_zero
+  | n + 1 =>
+    have ih := allSpec hP hQ n
+    { exec := fun b s s' top rest i hw hr hf h => exec_succ n ih b s s' top rest i hw hr hf h
+      resolved := fun b s s' top rest f c0 args hw hr hf hv ho h => resolved_succ n ih b s s' top rest f c0 args hw hr hf hv ho h
+      loop := fun b st s s' hw hl hb h => loop_succ n ih b st s s' hw hl hb h
+      run := fun b s s' top v hw hr hb h => run_succ n ih b s s' top v hw hr hb h
+      nested := fun f st s s' v hw h2 hlt hp hpc h => nested_succ n ih f st s s' v hw h2 hlt hp hpc h
+      eval := fun e s s' v hw hok h => eval_succ n ih e s s' v hw hok h
+      prep := fun f i args s s' hw hok h => prep_succ n ih args f i s s' hw hok h
+      user := fun name k s s' tail hw hd h => user_succ n ih name k s s' tail hw hd h
+      builtin := fun name args s s' v hw hpc ha h => builtin_succ hP hQ n ih name args s s' v hw hpc ha h
+      apply := fun f args s s' v hw hpc hvf ha h => apply_succ n ih f args s s' v hw hpc hvf ha h
+      mapArr := fun f r i k s s' vs hw hpc hvf h => mapArr_succ n ih f r i k s s' vs hw hpc hvf h
+      mapList := fun f l s s' v hw hpc hvf hvl h => mapList_succ n ih f l s s' v hw hpc hvf hvl h
+      force := fun id s s' v hw h => force_succ n ih id s s' v hw h }
+
 end ZygoVerif.RunInv
